@@ -17,6 +17,7 @@ package pogreb
 //@   ensures files: forall h ref :: old(hOpen[h]) ==> hOpen[h] && fidOf[h] == old(fidOf[h]) && fLen[fidOf[h]] == old(fLen[fidOf[h]]) && fDur[fidOf[h]] == old(fDur[fidOf[h]]) && fData[fidOf[h]] == old(fData[fidOf[h]])
 //@   ensures dir: forall n string :: old(dirFid[dl.opts.FileSystem][n]) != 0 ==> dirFid[dl.opts.FileSystem][n] == old(dirFid[dl.opts.FileSystem][n])
 //@   ensures created: (forall i int :: 0 <= i && i < 32767 && old(dl.segments[i]) != nil ==> old(dl.segments[i].meta.Full)) && err == nil ==> fresh(dl.curSeg) && fresh(dl.curSeg.file) && fresh(dl.curSeg.meta) && dl.curSeg.file.size == 512
+//@   ensures newfid: (forall i int :: 0 <= i && i < 32767 && old(dl.segments[i]) != nil ==> old(dl.segments[i].meta.Full)) && err == nil ==> forall h ref :: old(hOpen[h]) ==> h != ref(dl.curSeg.file.File) && fidOf[h] != fidOf[dl.curSeg.file.File]
 //@   ensures err: err != nil ==> !isNotExist(err)
 //@   modifies dl.curSeg, dl.segments, dl.maxSequenceID, dirFid[dl.opts.FileSystem], fLen, fDur, fData, hOpen, hPos, fidOf, fidName
 
@@ -29,8 +30,10 @@ package pogreb
 //@   ensures loc: err == nil ==> segID == dl.curSeg.id && off >= 512 && int64(off) + int64(len(data)) == dl.curSeg.file.size
 //@   ensures written: err == nil ==> sameBytes(fData[fidOf[dl.curSeg.file.File]], int(off), contents(data), off(data), len(data))
 //@   ensures kept: forall i int :: 0 <= i && i < 32767 && old(dl.segments[i]) != nil ==> dl.segments[i] == old(dl.segments[i])
-//@   ensures [C03] appendonly: err == nil ==> forall h ref :: old(hOpen[h]) ==> hOpen[h] && fidOf[h] == old(fidOf[h]) && fLen[fidOf[h]] >= old(fLen[fidOf[h]]) && (fidOf[h] != fidOf[dl.curSeg.file.File] ==> fLen[fidOf[h]] == old(fLen[fidOf[h]]) && fData[fidOf[h]] == old(fData[fidOf[h]]) && fDur[fidOf[h]] >= old(fDur[fidOf[h]]))
+//@   ensures new: forall i int :: 0 <= i && i < 32767 && old(dl.segments[i]) == nil && dl.segments[i] != nil ==> dl.segments[i] == dl.curSeg && dl.curSeg != old(dl.curSeg)
+//@   ensures [C03] appendonly: err == nil ==> forall h ref :: old(hOpen[h]) ==> hOpen[h] && fidOf[h] == old(fidOf[h]) && fLen[fidOf[h]] >= old(fLen[fidOf[h]]) && (fidOf[h] != fidOf[dl.curSeg.file.File] ==> fLen[fidOf[h]] == old(fLen[fidOf[h]]) && fData[fidOf[h]] == old(fData[fidOf[h]]) && (fDur[fidOf[h]] == old(fDur[fidOf[h]]) || fDur[fidOf[h]] == fLen[fidOf[h]]))
 //@   ensures [C03] prefix: err == nil ==> forall h ref, q int :: h == dl.curSeg.file.File && old(hOpen[h]) && 0 <= q && q < int(off) ==> fData[fidOf[h]][q] == old(fData[fidOf[h]])[q]
+//@   ensures newfid: err == nil ==> (dl.curSeg == old(dl.curSeg) && old(dl.segments[dl.curSeg.id] == dl.curSeg)) || fresh(dl.curSeg.file) && forall h ref :: old(hOpen[h]) ==> h != ref(dl.curSeg.file.File) && fidOf[h] != fidOf[dl.curSeg.file.File]
 //@   ensures sizes: forall f *file :: f != dl.curSeg.file && !fresh(f) ==> f.size == old(f.size) && f.File == old(f.File)
 //@   flag lossless
 //@   modifies dl.curSeg, dl.segments, dl.maxSequenceID, any(segmentMeta).Full, any(segmentMeta).PutRecords, any(segmentMeta).DeleteRecords, any(file).size, dirFid[dl.opts.FileSystem], fLen, fDur, fData, hOpen, hPos, fidOf, fidName
